@@ -221,14 +221,16 @@ def c08_post(ctx, results, wsname="c08"):
     samples = []
     for member, meta in members:
         mods = groute.run_member(ctx, wsname, member)
-        if mods is None:
-            recs.append(dict(k="harness_error", what="generated binary %s timed out" % member, case=None))
-            continue
+        timed_out = mods.pop("__timed_out__", False)
         for m in meta["modules"]:
             got = mods.get(m["name"])
             info = m["info"]
             sig_base = hashlib.sha1((info["grammar"] + json.dumps(info["settings"], sort_keys=True)).encode()).hexdigest()[:16]
             case = {"info": info}
+            if timed_out and (got is None or not got["ended"]):
+                counters["inconclusive:wall-clock"] = counters.get("inconclusive:wall-clock", 0) + 1
+                ctx["log"]("INCONCLUSIVE: generated program %s stopped by the wall-clock limit in/before module %s" % (member, m["name"]))
+                continue
             counters["modules_compared"] += 1
             if got is None or not got["ended"]:
                 recs.append(dict(k="viol", prop="C08", sig="crash:" + sig_base, what="generated parser crashed while being interrogated (module %s)" % m["name"], case=case))
@@ -420,5 +422,179 @@ PLANS["C11"] = dict(
                  "known findings are identified by call site: (rustc code, generated file kind, enclosing generated function, highlighted token class)",
                  "fence of listed finding duplicate-kind-type-names: a production kind is used at most once per grammar"],
     floor=dict(quick=100, thorough=1000), wall_cap=dict(quick=1200, thorough=7200),
+)
+STRLIT = re.compile(r'"((?:[^"\\]|\\.)*)"')
+LOCVAL = re.compile(r'ValSpan \{ value: "((?:[^"\\]|\\.)*)", span: Some\(\[?(\d+)\((\d+),(\d+)\)(?:-(\d+)\((\d+),(\d+)\)\])?\)')
+
+
+def build_ws_dropping_failures(ctx, wsname, members, infos, known_sigs):
+    """cargo build; modules that do not compile are removed (that is C11's business) and counted."""
+    ws = groute.ws_dir(ctx, wsname)
+    dropped = {}
+    for round_no in range(6):
+        rc, out, err = groute.build_ws(ctx, wsname, [m for m, _ in members], message_format_json=True, keep_going=True)
+        if rc == 0:
+            return True, dropped
+        failing = {}
+        for line in out.split("\n"):
+            if not (line.startswith("{") and '"compiler-message"' in line):
+                continue
+            try:
+                d = json.loads(line)["message"]
+            except Exception:
+                continue
+            if d.get("level") != "error" or not d.get("spans"):
+                continue
+            sig, fname, _ = c11_signature(d, ws)
+            mm = re.match(r"(s[0-9]+)/src/(g[0-9]+)(_actions|_lexer)?\.rs$", fname or "")
+            if mm:
+                failing.setdefault((mm.group(1), mm.group(2)), set()).add(sig)
+        if not failing:
+            ctx["log"]("build failed without attributable diagnostics: " + err[-600:])
+            return False, dropped
+        for (member, g), sigs in failing.items():
+            dropped[(member, g)] = sigs
+            mp = os.path.join(ws, member, "src", "main.rs")
+            src = open(mp).read().split("\n")
+            pat = re.compile(r"\b%s(_actions|_lexer)?\b|\bcheck_%s\b" % (g, g))
+            # the check function body spans several lines: cut it out as a block
+            outl, skip = [], False
+            for l in src:
+                if l.startswith("fn check_%s()" % g):
+                    skip = True
+                if skip:
+                    if l == "}":
+                        skip = False
+                    continue
+                if pat.search(l):
+                    continue
+                outl.append(l)
+            open(mp, "w").write("\n".join(outl))
+    return False, dropped
+
+
+def c10_judge_output(sent, glr, loc, line):
+    """line = 'OK <n> <debug>' ; returns list of problems."""
+    problems = []
+    parts = line.split(" ", 2)
+    dbg = parts[2] if len(parts) > 2 else ""
+    lits = [m.group(1) for m in STRLIT.finditer(dbg)]
+    if lits != sent["content"]:
+        problems.append(("content", "AST carries the token texts %s but the input's content tokens are, in order, %s" % (lits[:30], sent["content"][:30])))
+    if loc:
+        # every located token value must be the input slice at its span
+        inp = sent["input"].encode()
+        for m in LOCVAL.finditer(dbg):
+            val, a = m.group(1), int(m.group(2))
+            b = int(m.group(5)) if m.group(5) else a
+            if inp[a:b].decode(errors="replace") != val:
+                problems.append(("span", "located value %r has span [%d-%d] but the input has %r there" % (val, a, b, inp[a:b].decode(errors="replace"))))
+                break
+    if sent["unique"]:
+        bare = STRLIT.sub('""', dbg)
+        nt, nf = len(re.findall(r"\btrue\b", bare)), len(re.findall(r"\bfalse\b", bare))
+        et, ef = sum(1 for x in sent["bools"] if x), sum(1 for x in sent["bools"] if not x)
+        if (nt, nf) != (et, ef):
+            problems.append(("bools", "AST shows %d true / %d false but the (unique) derivation has %d present / %d absent `?=` bindings" % (nt, nf, et, ef)))
+    return problems, dbg
+
+
+def c10_post(ctx, results, wsname="c10"):
+    recs = []
+    members = groute.members_with_modules(ctx, wsname, NSH)
+    if not members:
+        return [dict(k="harness_error", what="no module generated", case=None)]
+    infos = {}
+    for member, meta in members:
+        for m in meta["modules"]:
+            infos[(member, m["name"])] = m["info"]
+    known = json.load(open(os.path.join(ctx["root"], "known_findings.json")))
+    c11_known = set(sg for f in known["findings"] if f["property"] == "C11" for sg in f.get("sigs", []))
+    ok, dropped = build_ws_dropping_failures(ctx, wsname, members, infos, c11_known)
+    if not ok:
+        return [dict(k="harness_error", what="scratch workspace does not build", case=None)]
+    counters = dict(evaluations=0, modules_run=0, modules_blocked_by_listed_C11_finding=0, modules_not_compiling_other=0, lr_rejections_not_judged=0, glr_lr_pairs_compared=0, asts_judged=0, unique_derivations=0)
+    for key, sigs in dropped.items():
+        if sigs <= c11_known:
+            counters["modules_blocked_by_listed_C11_finding"] += 1
+        else:
+            counters["modules_not_compiling_other"] += 1
+    distinct = {"nontrivial": set()}
+    samples = []
+    outputs = {}
+    for member, meta in members:
+        mods = groute.run_member(ctx, wsname, member)
+        timed_out = mods.pop("__timed_out__", False)
+        for m in meta["modules"]:
+            if (member, m["name"]) in dropped:
+                continue
+            got = mods.get(m["name"])
+            info = m["info"]
+            st = info["settings"]
+            sig_base = hashlib.sha1((info["grammar"] + json.dumps(st, sort_keys=True)).encode()).hexdigest()[:16]
+            if timed_out and (got is None or not got["ended"]):
+                counters["inconclusive:wall-clock"] = counters.get("inconclusive:wall-clock", 0) + 1
+                ctx["log"]("INCONCLUSIVE: generated program %s stopped by the wall-clock limit in/before module %s" % (member, m["name"]))
+                continue
+            if got is None or not got["ended"]:
+                recs.append(dict(k="viol", prop="C10", sig="crash:" + sig_base, what="generated parser aborted", case={"info": info}))
+                continue
+            counters["modules_run"] += 1
+            lines = {}
+            for l in got["lines"]:
+                if l.startswith("P "):
+                    _, idx, rest = l.split(" ", 2)
+                    lines[int(idx)] = rest
+            for i, sent in enumerate(info["sentences"]):
+                counters["evaluations"] += 1
+                line = lines.get(i, "<missing>")
+                case = {"info": dict(info, sentences=[sent]), "output": line[:1500]}
+                if line.startswith("PANIC"):
+                    recs.append(dict(k="viol", prop="C10", sig="panic:%s:%d" % (sig_base, i), what="building the AST panicked on %r" % sent["input"], case=case))
+                    continue
+                if line.startswith("ERR") or line == "<missing>":
+                    if st["glr"]:
+                        recs.append(dict(k="viol", prop="C10", sig="glr-reject:%s:%d" % (sig_base, i), what="GLR parser rejects a sentence of its grammar: %s" % line[:200], case=case))
+                    else:
+                        counters["lr_rejections_not_judged"] += 1  # prefer_shifts may cut the language of an ambiguous grammar
+                    continue
+                problems, dbg = c10_judge_output(sent, st["glr"], st["loc_info"], line)
+                counters["asts_judged"] += 1
+                if sent["unique"]:
+                    counters["unique_derivations"] += 1
+                    outputs[(member, info["group"], st["loc_info"], i, st["glr"])] = (dbg, case, sig_base)
+                for kind, text in problems:
+                    recs.append(dict(k="viol", prop="C10", sig="%s:%s:%d" % (kind, sig_base, i), what="%s default AST of %r: %s" % ("GLR" if st["glr"] else "LR", sent["input"][:80], text[:500]), case=case))
+                if not problems and len(sent["content"]) >= 2:
+                    distinct["nontrivial"].add(hashlib.sha1((info["grammar"] + sent["input"]).encode()).hexdigest()[:16])
+                    if len(samples) < 3:
+                        samples.append({"grammar": info["grammar"], "algo": "GLR" if st["glr"] else "LR", "loc_info": st["loc_info"], "input": sent["input"], "content_tokens": sent["content"], "ast": dbg[:400]})
+    # GLR replay == LR value for unique derivations
+    for key, (dbg, case, sig_base) in outputs.items():
+        if key[4]:
+            continue
+        other = outputs.get(key[:4] + (True,))
+        if other is None:
+            continue
+        counters["glr_lr_pairs_compared"] += 1
+        if other[0] != dbg:
+            recs.append(dict(k="viol", prop="C10", sig="glr-vs-lr:%s:%d" % (sig_base, key[3]), what="GLR tree replayed through the default builder differs from the LR value for an input with a unique derivation", case=dict(case, glr_output=other[0][:1500])))
+    groute.cleanup_ws(ctx, wsname)
+    recs.append(dict(k="stat", counters=counters, distinct={k: list(v) for k, v in distinct.items()}, samples=samples))
+    return recs
+
+
+PLANS["C10"] = dict(
+    jobs=gen_jobs("c10", "C10", 10, 100, "c10"), replay=gen_replay("c10", "C10", "c10"), post=c10_post, post_replay=lambda ctx, results, case: c10_post(ctx, results),
+    rule="one evaluation = one (grammar, {LR,GLR}, loc_info off/on, sentence) run through the parser rustc compiled from the generated source with the generated default builder; sentences are random derivations of the written grammar "
+         "in which every regex token has a unique text, so the Debug rendering of the returned value must contain exactly the content-token texts of the input, each once, in input order; with loc_info every located value must be the "
+         "input slice at its span; when the derivation is unique (reference enumerator) the numbers of true/false equal the present/absent ?= bindings and the GLR first tree replayed through the builder renders identically to the LR value. "
+         "non-trivial = distinct (grammar, input) with >= 2 content tokens whose AST passed all checks",
+    assumptions=["fence of listed finding qassign-not-implemented: the generator writes `=` wherever the `ast` generator would write `?=`; the ?= presence check only runs on the witness",
+                 "LR modules use prefer_shifts; an LR rejection of a sentence of an ambiguous grammar is counted, not judged",
+                 "modules that do not compile are C11's business: they are removed and counted (blocked by a listed C11 finding / other)",
+                 "the number of None / [] in the rendering is not judged (the documented types do not make that count exact)",
+                 "names come from the pool that avoids Rust prelude / generated identifiers; a production kind is used once per grammar"],
+    floor=dict(quick=50, thorough=500), wall_cap=dict(quick=1800, thorough=7200),
 )
 NOT_CLAIMED = {}
